@@ -40,10 +40,13 @@ CALLS = [
     ('a-add1', "AR(bitstring.Array(bitstring.Dtype('u8', scale=4), [8]) + bitstring.Array(bitstring.Dtype('u8', scale=2), [4]))"),
     ('a-add2', "AR(bitstring.Array(bitstring.Dtype('u8', scale=32), [32]) + bitstring.Array(bitstring.Dtype('u8', scale=8), [64]))"),
     ('a-addi', "AR(bitstring.Array('u8', [1]) + bitstring.Array('i8', [-1]))"), ('a-u8', "AR(bitstring.Array('u8', [1, 2]))"),
+    # Arrays built from strings (initializer and trailing_bits), returned un-canonicalised so that MUTATE can reach them
+    ('a-trail', "bitstring.Array('uint8', trailing_bits='0x0a0b')"), ('a-init-str', "bitstring.Array('uint4', bitstring.Bits('0x3a5'))"),
+    ('a-trail2', "bitstring.Array('uint4', [1], trailing_bits='0b1')"), ('c-0a0b', "bitstring.Bits('0x0a0b')"), ('c-0b1', "bitstring.ConstBitStream('0b1')"),
 ]
 CALL_SRC = dict(CALLS)
 
-MUTATIONS = ["R.append('0b1')", "R.invert()", "R.clear()", "R[0].invert()", "R.data.invert()", "R.tobitarray().clear()"]
+MUTATIONS = ["R.append('0b1')", "R.invert()", "R.clear()", "R[0].invert()", "R.data.invert()", "R.tobitarray().clear()", "R.append(7)", "R.__setitem__(0, 1)"]
 
 FLOODS = {
     'str': "[bitstring.Bits('0x%04x' % i) for i in range({n})]",
@@ -89,6 +92,8 @@ def canon(v):
         return tuple(canon(x) for x in v)
     if isinstance(v, (str, bool, bytes)) or v is None:
         return v
+    if isinstance(v, bs.Array):
+        return ('Array', str(v.dtype), v.data.bin)
     return ('obj', type(v).__name__, repr(v))
 
 
@@ -120,6 +125,7 @@ def canon(v):
     if isinstance(v, int) and not isinstance(v, bool): return ('i', v)
     if isinstance(v, (list, tuple)): return tuple(canon(x) for x in v)
     if isinstance(v, (str, bool, bytes)) or v is None: return v
+    if isinstance(v, bitstring.Array): return ('Array', str(v.dtype), v.data.bin)
     return ('obj', type(v).__name__, repr(v))
 def DT(d):
     n = d.bitlength or 8
